@@ -10,6 +10,7 @@ pub open spec fn hint_ok(h: Option<Bitvector>, w: nat) -> bool {
 }
 
 impl IntervalDomain {
+    #[verifier::inline]
     pub open spec fn w(&self) -> nat { self.interval.start.w@ }
 
     pub open spec fn inv(&self) -> bool {
@@ -18,6 +19,7 @@ impl IntervalDomain {
         &&& hint_ok(self.widening_upper_bound, self.interval.w())
     }
 
+    #[verifier::inline]
     pub open spec fn gamma(&self, v: Bitvector) -> bool { self.interval.gamma(v) }
 
     /// machine-arithmetic side condition of the stride rounding code (`(end - start) as u64` on i64):
